@@ -106,6 +106,27 @@ def MExpr.base : MExpr → MExpr
   | .viaTensor e => e.base
   | e => e
 
+/-- the number of elements of the matrix (or tensor) at the bottom of a composition -/
+def MExpr.dataLen : MExpr → Nat
+  | .leaf rows columns => rows * columns
+  | .leafCM rows columns => rows * columns
+  | .part rows columns _ _ _ _ => rows * columns
+  | .range e _ _ => e.dataLen
+  | .reverse e _ _ => e.dataLen
+  | .map e => e.dataLen
+  | .viaTensor e => e.dataLen
+
+/-- reading index `(i, j)` of a view over the data of its source -/
+def MExpr.read {α : Type} (e : MExpr) (data : List α) (i j : Nat) : Option α :=
+  (e.cell i j).bind (data[·]?)
+
+/-- writing `x` at index `(i, j)` of a view: the designated cell of the source's data changes,
+    nothing happens outside the view -/
+def MExpr.write {α : Type} (e : MExpr) (data : List α) (i j : Nat) (x : α) : List α :=
+  match e.cell i j with
+  | some o => data.set o x
+  | none => data
+
 /-- the layout a composition reports, declaratively: that of its source for ranges, maps and the
     tensor round trip, `Other` after a reversal -/
 def MExpr.layoutSpec : MExpr → MLayout
